@@ -208,17 +208,21 @@ class VSQS(Ansatz):
         reference_state_circuit = self.prepare_reference_state() if self.reference_state is None else self.reference_state
         self.var_params = self.set_var_params(var_params)
 
+        # The variational blocks are laid out with a unit time so that every term gets its variational gate (a term whose
+        # evolution time is zero would be skipped, and update_var_params relies on a fixed number of gates per block).
+        # The actual evolution times are then set by update_var_params.
         vsqs_circuit = get_exponentiated_qubit_operator_circuit(self.h_init, time=self.dt, trotter_order=self.trotter_order, pauli_order=self.h_init_list)
         for i in range(self.intervals-1):
-            vsqs_circuit += get_exponentiated_qubit_operator_circuit(self.h_init, time=self.var_params[i * self.stride] * self.dt, variational=True,
+            vsqs_circuit += get_exponentiated_qubit_operator_circuit(self.h_init, time=1., variational=True,
                                                                      trotter_order=self.trotter_order, pauli_order=self.h_init_list)
-            vsqs_circuit += get_exponentiated_qubit_operator_circuit(self.h_final, time=self.var_params[i * self.stride + 1] * self.dt, variational=True,
+            vsqs_circuit += get_exponentiated_qubit_operator_circuit(self.h_final, time=1., variational=True,
                                                                      trotter_order=self.trotter_order, pauli_order=self.h_final_list)
             if self.h_nav is not None:
-                vsqs_circuit += get_exponentiated_qubit_operator_circuit(self.h_nav, time=self.var_params[i * self.stride + 2] * self.dt, variational=True,
+                vsqs_circuit += get_exponentiated_qubit_operator_circuit(self.h_nav, time=1., variational=True,
                                                                          trotter_order=self.trotter_order, pauli_order=self.h_nav_list)
         vsqs_circuit += get_exponentiated_qubit_operator_circuit(self.h_final, time=self.dt, trotter_order=self.trotter_order, pauli_order=self.h_final_list)
 
         self.circuit = reference_state_circuit + vsqs_circuit if reference_state_circuit.size != 0 else vsqs_circuit
+        self.update_var_params(self.var_params)
 
         return self.circuit
